@@ -1,10 +1,675 @@
 package main
 
 import (
+	"encoding/json"
+	"flag"
 	"fmt"
-	_ "golang.org/x/tools/go/packages"
-	_ "golang.org/x/tools/go/ssa"
-	_ "golang.org/x/tools/go/ssa/ssautil"
+	"go/types"
+	"os"
+	"path/filepath"
+	"sort"
+	"strconv"
+	"strings"
+	"time"
+
+	"golang.org/x/tools/go/ssa"
+	"golang.org/x/tools/go/ssa/ssautil"
 )
 
-func main() { fmt.Println("ok") }
+type Session struct {
+	P       *Program
+	C       *Contracts
+	S       *Sorts
+	Prelude string
+	Pure    map[*ssa.Function]bool
+	Verif   string
+	Repo    string
+}
+
+func openSession(repo, verif string) (*Session, error) {
+	t0 := time.Now()
+	P, err := loadProgram(repo, []string{"./cty/..."})
+	if err != nil {
+		return nil, err
+	}
+	files := contractFiles(repo, filepath.Join(verif, "spec"))
+	C, err := loadContracts(files)
+	if err != nil {
+		return nil, err
+	}
+	S := newSorts()
+	s := &Session{P: P, C: C, S: S, Verif: verif, Repo: repo}
+	s.prescan()
+	pre, err := os.ReadFile(filepath.Join(verif, "spec", "prelude.smt2"))
+	if err != nil {
+		return nil, err
+	}
+	s.Prelude = string(pre) + "\n" + strings.Join(C.Prelude, "\n")
+	s.Pure = computePurity(P)
+	fmt.Fprintf(os.Stderr, "govc: loaded %d contracts from %d files, %d functions, in %.1fs\n", len(C.Funcs), len(files), len(P.ByKey), time.Since(t0).Seconds())
+	return s, nil
+}
+
+// prescan registers the sorts, box constructors and heaps that occur in the repo's packages
+// so that the prelude can refer to them by name irrespective of which function is analysed.
+func (s *Session) prescan() {
+	S := s.S
+	for _, pkg := range s.P.SSAPkgs {
+		if pkg == nil || !isRepoPkg(pkg.Pkg) {
+			continue
+		}
+		scope := pkg.Pkg.Scope()
+		for _, n := range scope.Names() {
+			if tn, ok := scope.Lookup(n).(*types.TypeName); ok {
+				if named, ok := tn.Type().(*types.Named); ok && named.TypeParams().Len() == 0 {
+					S.sortOf(named)
+					if _, isStruct := named.Underlying().(*types.Struct); isStruct {
+						S.heapForPointee(named)
+					}
+				}
+			}
+		}
+	}
+	for fn := range ssautil.AllFunctions(s.P.Prog) {
+		if fn.Pkg == nil || !isRepoPkg(fn.Pkg.Pkg) {
+			continue
+		}
+		if fn.TypeParams().Len() > 0 && len(fn.TypeArgs()) == 0 {
+			continue // generic origin
+		}
+		for _, b := range fn.Blocks {
+			for _, in := range b.Instrs {
+				switch x := in.(type) {
+				case *ssa.MakeInterface:
+					if !hasTypeParam(x.X.Type()) {
+						S.box(x.X.Type())
+					}
+				case *ssa.TypeAssert:
+					if !isInterface(x.AssertedType) && !hasTypeParam(x.AssertedType) {
+						S.box(x.AssertedType)
+					}
+				case *ssa.MakeSlice:
+					S.heapForSliceElem(x.Type().Underlying().(*types.Slice).Elem())
+				case *ssa.MakeMap:
+					S.heapForMap(x.Type().Underlying().(*types.Map))
+				case *ssa.IndexAddr:
+					if sl, ok := x.X.Type().Underlying().(*types.Slice); ok {
+						S.heapForSliceElem(sl.Elem())
+					}
+				case *ssa.Lookup:
+					if mt, ok := x.X.Type().Underlying().(*types.Map); ok {
+						S.heapForMap(mt)
+					}
+				case *ssa.Alloc:
+					if x.Heap {
+						el := x.Type().(*types.Pointer).Elem()
+						if at, ok := el.Underlying().(*types.Array); ok {
+							S.heapForSliceElem(at.Elem())
+						} else {
+							S.heapForPointee(el)
+						}
+					}
+				}
+			}
+		}
+	}
+	sort.Strings(S.boxOrder)
+}
+
+func hasTypeParam(t types.Type) bool {
+	found := false
+	var visit func(t types.Type, depth int)
+	visit = func(t types.Type, depth int) {
+		if depth > 6 || found {
+			return
+		}
+		switch x := t.(type) {
+		case *types.TypeParam:
+			found = true
+		case *types.Pointer:
+			visit(x.Elem(), depth+1)
+		case *types.Slice:
+			visit(x.Elem(), depth+1)
+		case *types.Map:
+			visit(x.Key(), depth+1)
+			visit(x.Elem(), depth+1)
+		case *types.Named:
+			for i := 0; i < x.TypeArgs().Len(); i++ {
+				visit(x.TypeArgs().At(i), depth+1)
+			}
+		}
+	}
+	visit(t, 0)
+	return found
+}
+
+// computePurity: a function is heap-pure if it (transitively, through static callees
+// with bodies) contains no store through a non-local pointer, no map update, no
+// append/copy/delete, no dynamic calls and no calls into body-less functions.
+func computePurity(P *Program) map[*ssa.Function]bool {
+	impure := map[*ssa.Function]bool{}
+	callees := map[*ssa.Function][]*ssa.Function{}
+	all := ssautil.AllFunctions(P.Prog)
+	for fn := range all {
+		if len(fn.Blocks) == 0 {
+			impure[fn] = true
+			continue
+		}
+		for _, b := range fn.Blocks {
+			for _, in := range b.Instrs {
+				switch x := in.(type) {
+				case *ssa.Store:
+					if cell, _ := rootOfAddr(x.Addr); cell == nil {
+						// stores into objects allocated in the same function are harmless, but be conservative
+						if a, ok := rootAlloc(x.Addr); !ok || a == nil {
+							impure[fn] = true
+						}
+					}
+				case *ssa.MapUpdate:
+					if _, ok := x.Map.(*ssa.MakeMap); !ok {
+						impure[fn] = true
+					}
+				case *ssa.Go, *ssa.Send, *ssa.Defer:
+					impure[fn] = true
+				case ssa.CallInstruction:
+					c := x.Common()
+					if bi, ok := c.Value.(*ssa.Builtin); ok {
+						switch bi.Name() {
+						case "copy", "delete":
+							impure[fn] = true
+						}
+						continue
+					}
+					if sc := c.StaticCallee(); sc != nil {
+						callees[fn] = append(callees[fn], sc)
+					} else {
+						impure[fn] = true
+					}
+				}
+			}
+		}
+	}
+	changed := true
+	for changed {
+		changed = false
+		for fn, cs := range callees {
+			if impure[fn] {
+				continue
+			}
+			for _, c := range cs {
+				if impure[c] {
+					impure[fn] = true
+					changed = true
+					break
+				}
+			}
+		}
+	}
+	pure := map[*ssa.Function]bool{}
+	for fn := range all {
+		if !impure[fn] {
+			pure[fn] = true
+		}
+	}
+	return pure
+}
+
+func rootAlloc(v ssa.Value) (*ssa.Alloc, bool) {
+	_, root := rootOfAddr(v)
+	if a, ok := root.(*ssa.Alloc); ok {
+		return a, true
+	}
+	if ms, ok := root.(*ssa.MakeSlice); ok {
+		_ = ms
+		return &ssa.Alloc{}, true
+	}
+	return nil, false
+}
+
+func (s *Session) decls(vc *FuncVC) string {
+	return fullDecls(s.S, s.Prelude, vc.IfaceFns)
+}
+
+func propsOf(ct *FuncContract) map[string]bool {
+	out := map[string]bool{}
+	for _, t := range ct.Tags {
+		out[t] = true
+	}
+	for _, c := range ct.Ensures {
+		for _, t := range c.Tags {
+			out[t] = true
+		}
+	}
+	if ct.Panics != nil {
+		for _, t := range ct.Panics.Tags {
+			out[t] = true
+		}
+	}
+	for _, cs := range ct.Loops {
+		for _, c := range cs {
+			for _, t := range c.Tags {
+				out[t] = true
+			}
+		}
+	}
+	return out
+}
+
+func main() {
+	if len(os.Args) < 2 {
+		fmt.Fprintln(os.Stderr, "usage: govc check|vc|list ...")
+		os.Exit(2)
+	}
+	switch os.Args[1] {
+	case "check":
+		os.Exit(cmdCheck(os.Args[2:]))
+	case "vc":
+		os.Exit(cmdVC(os.Args[2:]))
+	case "list":
+		os.Exit(cmdList(os.Args[2:]))
+	default:
+		fmt.Fprintln(os.Stderr, "unknown command", os.Args[1])
+		os.Exit(2)
+	}
+}
+
+func cmdList(args []string) int {
+	fs := flag.NewFlagSet("list", flag.ExitOnError)
+	repo := fs.String("repo", "/repo", "")
+	verif := fs.String("verif", "/verif", "")
+	pat := fs.String("match", "", "substring filter on function keys")
+	fs.Parse(args)
+	s, err := openSession(*repo, *verif)
+	if err != nil {
+		fmt.Fprintln(os.Stderr, "govc:", err)
+		return 2
+	}
+	var keys []string
+	for k := range s.P.ByKey {
+		if *pat == "" || strings.Contains(k, *pat) {
+			keys = append(keys, k)
+		}
+	}
+	sort.Strings(keys)
+	for _, k := range keys {
+		mark := " "
+		if _, ok := s.C.Funcs[k]; ok {
+			mark = "*"
+		}
+		fmt.Println(mark, k)
+	}
+	return 0
+}
+
+// cmdVC: debugging aid — generate and discharge the VCs of selected functions.
+func cmdVC(args []string) int {
+	fs := flag.NewFlagSet("vc", flag.ExitOnError)
+	repo := fs.String("repo", "/repo", "")
+	verif := fs.String("verif", "/verif", "")
+	fn := fs.String("func", "", "comma-separated function keys (default: all with contracts)")
+	dump := fs.String("dump", "", "directory to keep query files in")
+	timeout := fs.Int("timeout", 5000, "per-solver timeout (ms)")
+	only := fs.String("only", "", "substring filter on obligation names")
+	nosolve := fs.Bool("nosolve", false, "")
+	fs.Parse(args)
+	s, err := openSession(*repo, *verif)
+	if err != nil {
+		fmt.Fprintln(os.Stderr, "govc:", err)
+		return 2
+	}
+	var keys []string
+	if *fn != "" {
+		keys = strings.Split(*fn, ",")
+	} else {
+		for k, ct := range s.C.Funcs {
+			if !ct.Trusted && ct.NoVerify == "" && !strings.Contains(k, "!") {
+				keys = append(keys, k)
+			}
+		}
+		sort.Strings(keys)
+	}
+	dir := *dump
+	if dir == "" {
+		dir, _ = os.MkdirTemp("", "govc-q")
+		defer os.RemoveAll(dir)
+	} else {
+		os.MkdirAll(dir, 0o755)
+	}
+	var vcs []*FuncVC
+	for _, k := range keys {
+		if _, ok := s.C.Funcs[k]; !ok {
+			fmt.Printf("no contract for %s\n", k)
+			continue
+		}
+		vc := genVC(s.P, s.C, s.S, k, s.Pure)
+		vcs = append(vcs, vc)
+	}
+	if !*nosolve {
+		dischargeAll(dir, s.decls, vcs, func(o *Obligation) bool { return *only == "" || strings.Contains(o.Name, *only) }, *timeout, 6)
+	}
+	bad := 0
+	for _, vc := range vcs {
+		fmt.Printf("== %s [%s] %d obligations, script %d lines\n", vc.Key, vc.Status, len(vc.Obls), len(vc.Script))
+		for _, e := range vc.Errs {
+			fmt.Printf("   ERROR %s\n", e)
+		}
+		for _, n := range vc.Notes {
+			fmt.Printf("   note: %s\n", n)
+		}
+		for _, o := range vc.Obls {
+			if o.Result == nil {
+				continue
+			}
+			ok := o.Result.Status == "unsat"
+			if o.Cover {
+				ok = o.Result.Status != "unsat" && o.Result.Status != "error"
+			}
+			m := "ok  "
+			if !ok {
+				m = "FAIL"
+				bad++
+			}
+			fmt.Printf("   %s %-8s %-7s %5dms %s %v\n", m, o.Result.Status, o.Result.Solver, o.Result.Ms, o.Name, o.Tags)
+			if !ok {
+				fmt.Printf("        %s\n", strings.Join(o.Result.Tried, " "))
+				if o.Result.Status == "error" || o.Result.Status == "unknown" {
+					fmt.Printf("        %s\n", o.Result.Output)
+				}
+			}
+		}
+	}
+	if bad > 0 {
+		return 1
+	}
+	return 0
+}
+
+// ---------------------------------------------------------------------------
+// check: the per-property entry point used by MANIFEST.json
+
+type evObl struct {
+	Name   string `json:"name"`
+	Kind   string `json:"kind"`
+	Func   string `json:"function"`
+	Status string `json:"status"`
+	Solver string `json:"solver"`
+	Ms     int64  `json:"ms"`
+	Src    string `json:"contract_src,omitempty"`
+}
+
+func cmdCheck(args []string) int {
+	fs := flag.NewFlagSet("check", flag.ExitOnError)
+	repo := fs.String("repo", "/repo", "")
+	verif := fs.String("verif", "/verif", "")
+	prop := fs.String("prop", "", "property id")
+	tier := fs.String("tier", "quick", "quick|thorough")
+	fs.Parse(args)
+	if *prop == "" {
+		fmt.Fprintln(os.Stderr, "govc check: --prop required")
+		return 2
+	}
+	t0 := time.Now()
+	seed, _ := strconv.Atoi(os.Getenv("VERIF_SEED"))
+	s, err := openSession(*repo, *verif)
+	if err != nil {
+		fmt.Fprintln(os.Stderr, "govc: engine error:", err)
+		return 2
+	}
+	timeout := 6000
+	if *tier == "thorough" {
+		timeout = 60000
+	}
+	var keys []string
+	for k, ct := range s.C.Funcs {
+		if ct.Trusted || ct.NoVerify != "" || strings.Contains(k, "!") {
+			continue
+		}
+		if propsOf(ct)[*prop] {
+			keys = append(keys, k)
+		}
+	}
+	sort.Strings(keys)
+	if len(keys) == 0 {
+		fmt.Fprintf(os.Stderr, "govc: engine error: no function under contract for %s\n", *prop)
+		return 2
+	}
+	var vcs []*FuncVC
+	for _, k := range keys {
+		vcs = append(vcs, genVC(s.P, s.C, s.S, k, s.Pure))
+	}
+	dir, _ := os.MkdirTemp("", "govc-q")
+	defer os.RemoveAll(dir)
+	filter := func(o *Obligation) bool { return o.hasTag(*prop) }
+	dischargeAll(dir, s.decls, vcs, filter, timeout, 6)
+	return report(s, *prop, *tier, seed, vcs, filter, t0, dir, timeout)
+}
+
+type knownFinding struct {
+	Prop, Obl, Text string
+	Fixed           bool
+}
+
+func loadKnown(path string) []knownFinding {
+	data, err := os.ReadFile(path)
+	if err != nil {
+		return nil
+	}
+	var out []knownFinding
+	for _, l := range strings.Split(string(data), "\n") {
+		l = strings.TrimSpace(l)
+		if l == "" || strings.HasPrefix(l, "#") {
+			continue
+		}
+		kf := knownFinding{}
+		if strings.HasPrefix(l, "fixed:") {
+			kf.Fixed = true
+			l = strings.TrimSpace(l[6:])
+		} else if strings.HasPrefix(l, "finding:") {
+			l = strings.TrimSpace(l[8:])
+		} else {
+			continue
+		}
+		for _, f := range strings.Fields(l) {
+			if strings.HasPrefix(f, "property=") {
+				kf.Prop = f[9:]
+			} else if strings.HasPrefix(f, "obligation=") {
+				kf.Obl = f[11:]
+			}
+		}
+		kf.Text = l
+		out = append(out, kf)
+	}
+	return out
+}
+
+func report(s *Session, prop, tier string, seed int, vcs []*FuncVC, filter func(*Obligation) bool, t0 time.Time, qdir string, timeout int) int {
+	known := loadKnown(filepath.Join(s.Verif, "known_findings.txt"))
+	var obls []evObl
+	total, discharged, covers := 0, 0, 0
+	var violations []string
+	var engineErrs []string
+	notes := map[string]bool{}
+	funcs := map[string]string{}
+	solverMs := map[string]int64{}
+	var samples []string
+	kfPrinted := map[string]bool{}
+	os.MkdirAll(filepath.Join(s.Verif, "replays"), 0o755)
+	for _, vc := range vcs {
+		funcs[vc.Key] = vc.Status
+		for k, v := range vc.Used {
+			if _, ok := funcs[k]; !ok {
+				funcs[k] = v
+			}
+		}
+		if vc.Status != "contract" {
+			engineErrs = append(engineErrs, fmt.Sprintf("%s: %s", vc.Key, strings.Join(vc.Errs, "; ")))
+			continue
+		}
+		for _, n := range vc.Notes {
+			notes[n] = true
+		}
+		n := 0
+		for _, o := range vc.Obls {
+			if !filter(o) || o.Result == nil {
+				continue
+			}
+			n++
+			if o.Cover {
+				covers++
+				if o.Result.Status == "unsat" {
+					engineErrs = append(engineErrs, fmt.Sprintf("%s: vacuous (no reachable return under the preconditions)", vc.Key))
+				}
+				continue
+			}
+			total++
+			obls = append(obls, evObl{o.Name, o.Kind, vc.Key, o.Result.Status, o.Result.Solver, o.Result.Ms, o.Src})
+			solverMs[o.Result.Solver] += o.Result.Ms
+			if len(samples) < 6 && o.Kind == "ensures" {
+				samples = append(samples, fmt.Sprintf("%s: (assert (not %s))", o.Name, truncate(o.Goal, 400)))
+			}
+			if o.Result.Status == "unsat" {
+				discharged++
+				continue
+			}
+			if o.Result.Status == "error" {
+				engineErrs = append(engineErrs, fmt.Sprintf("%s: solver error: %s", o.Name, o.Result.Output))
+				continue
+			}
+			// failed obligation
+			isKnown := false
+			for _, kf := range known {
+				if !kf.Fixed && kf.Prop == prop && kf.Obl == o.Name {
+					isKnown = true
+					if !kfPrinted[kf.Text] {
+						kfPrinted[kf.Text] = true
+						fmt.Printf("KNOWN-FINDING: %s\n", kf.Text)
+					}
+				}
+			}
+			if isKnown {
+				continue
+			}
+			rp := writeReplay(s, prop, vc, o, qdir, timeout)
+			violations = append(violations, rp)
+		}
+		if n == 0 && len(vc.Errs) == 0 {
+			// nothing tagged in this function: fine
+		}
+	}
+	if len(samples) == 0 {
+		for _, o := range obls {
+			if len(samples) < 4 {
+				samples = append(samples, o.Name)
+			}
+		}
+	}
+	var trusted []string
+	for k, ct := range s.C.Funcs {
+		if ct.Trusted && ct.Used {
+			trusted = append(trusted, "trusted contract: "+k)
+		}
+	}
+	sort.Strings(trusted)
+	trusted = append(trusted, "go/ssa lowering (x/tools v0.29.0), SMT solvers z3 4.8.12 / z3 5.1.0 / cvc5 1.0", "prelude axioms in /verif/spec/prelude.smt2", "int is 64 bits; slice capacities <= 2^56; termination not verified")
+	var assumptions []string
+	for n := range notes {
+		assumptions = append(assumptions, n)
+	}
+	sort.Strings(assumptions)
+	ev := map[string]interface{}{
+		"property_id": prop,
+		"tier":        tier,
+		"seed":        seed,
+		"level":       "proof",
+		"coverage": map[string]interface{}{
+			"obligations":           total,
+			"discharged":            discharged,
+			"cover_checks":          covers,
+			"checker_cmd":           fmt.Sprintf("/verif/bin/govc check --prop %s --tier %s", prop, tier),
+			"trusted_base":          trusted,
+			"functions":             funcs,
+			"obligation_results":    obls,
+			"solver_ms":             solverMs,
+			"samples":               samples,
+			"engine_errors":         engineErrs,
+			"per_solver_timeout_ms": timeout,
+		},
+		"assumptions": assumptions,
+		"wall_s":      time.Since(t0).Seconds(),
+		"violations":  len(violations),
+	}
+	os.MkdirAll(filepath.Join(s.Verif, "evidence"), 0o755)
+	data, _ := json.MarshalIndent(ev, "", " ")
+	os.WriteFile(filepath.Join(s.Verif, "evidence", prop+".json"), data, 0o644)
+	fmt.Printf("govc: property %s tier %s: %d obligations, %d discharged, %d violations, %d engine errors, %.1fs\n", prop, tier, total, discharged, len(violations), len(engineErrs), time.Since(t0).Seconds())
+	for _, e := range engineErrs {
+		fmt.Printf("ENGINE-ERROR: %s\n", e)
+	}
+	for _, v := range violations {
+		fmt.Println(v)
+	}
+	if len(violations) > 0 {
+		return 1
+	}
+	if len(engineErrs) > 0 || total == 0 {
+		return 2
+	}
+	return 0
+}
+
+func truncate(s string, n int) string {
+	if len(s) > n {
+		return s[:n] + "..."
+	}
+	return s
+}
+
+// writeReplay records a failed obligation; tries to obtain a model.
+func writeReplay(s *Session, prop string, vc *FuncVC, o *Obligation, qdir string, timeout int) string {
+	path := filepath.Join(s.Verif, "replays", prop+"-"+sanitizeFile(o.Name)+".txt")
+	var b strings.Builder
+	fmt.Fprintf(&b, "property: %s\nobligation: %s\nkind: %s\nfunction: %s\ncontract clause: %s\nsolver verdicts: %s\n", prop, o.Name, o.Kind, vc.Key, o.Src, strings.Join(o.Result.Tried, " "))
+	suffix := " no-failing-input-found"
+	model := ""
+	if o.Result.Status == "sat" {
+		q := buildQuery(s.decls(vc), vc, o, true)
+		r := solveOne(qdir, o.Name+".model", q, timeout, true)
+		if r.Status == "sat" {
+			model = r.Output
+		}
+	}
+	fmt.Fprintf(&b, "goal (negated in the query): %s\n", o.Goal)
+	if model != "" {
+		fmt.Fprintf(&b, "\nsolver model (function parameters and relevant constants):\n%s\n", extractParams(model))
+		if ok, out := tryReplay(s, vc, o, model); ok {
+			suffix = ""
+			fmt.Fprintf(&b, "\nreplay against the real code: REPRODUCED\n%s\n", out)
+		} else {
+			fmt.Fprintf(&b, "\nreplay against the real code: not reproduced (%s)\n", out)
+		}
+	} else {
+		fmt.Fprintf(&b, "\nno model available (solver output: %s)\n", o.Result.Output)
+	}
+	os.WriteFile(path, []byte(b.String()), 0o644)
+	return fmt.Sprintf("VIOLATION property=%s replay=%s obligation=%s%s", prop, path, o.Name, suffix)
+}
+
+func extractParams(model string) string {
+	// keep only definitions of parameters (p.*), results and ghosts
+	var out []string
+	lines := strings.Split(model, "\n")
+	for i := 0; i < len(lines); i++ {
+		l := lines[i]
+		if strings.Contains(l, "define-fun p.") || strings.Contains(l, "define-fun ghost.") || strings.Contains(l, "define-fun result") || strings.Contains(l, "define-fun fv.") {
+			out = append(out, l)
+			for j := i + 1; j < len(lines) && !strings.Contains(lines[j], "define-fun"); j++ {
+				out = append(out, lines[j])
+				i = j
+			}
+		}
+	}
+	if len(out) > 200 {
+		out = out[:200]
+	}
+	return strings.Join(out, "\n")
+}
